@@ -46,10 +46,16 @@ class ConcreteProvider:
         self.inputs[name] = v
         return v
 
+    def draw_from(self, pool):
+        """the harness asks for this case's unconstrained reals to be drawn (with probability 0.4) from ``pool``: float64
+        validation / search points of a particular kind (extreme magnitudes, ...).  No effect on the symbolic side."""
+        self.special = True
+        self.pool = list(pool)
+
     def real(self, name, lo=None, hi=None, scale=3.0):
         def gen():
             if self.special and self.rng.random() < 0.4:
-                pool = [x for x in self.SPECIALS if (lo is None or x >= lo) and (hi is None or x <= hi)]
+                pool = [x for x in getattr(self, "pool", self.SPECIALS) if (lo is None or x >= lo) and (hi is None or x <= hi)]
                 if pool:
                     return self.rng.choice(pool)
             if lo is not None and hi is not None:
@@ -228,6 +234,11 @@ class ConcreteProvider:
             scale = 1.0 + max(np.max(np.abs(l), initial=0.0), np.max(np.abs(r), initial=0.0))
             bad = ~(np.abs(l - r) <= tol * scale)
         bad = bad & ~(np.isnan(l) & np.isnan(r))  # NaN on both sides (a singular solve in both runs) is not a difference
+        with np.errstate(invalid="ignore"):
+            bad = bad & ~(l == r)  # identical values, in particular the same infinity on both sides (inf - inf is NaN)
+            if not exact and not np.isfinite(scale):
+                # an overflowing entry elsewhere in the array makes the common scale infinite: compare entry by entry
+                bad = bad & ~(np.abs(l - r) <= tol * (1.0 + np.maximum(np.abs(l), np.abs(r))))
         if bad.any():
             i = int(np.argmax(bad))
             self.failures.append({"name": name, "msg": "entry %d: %r != %r (tol %g)" % (i, float(l[i]), float(r[i]), tol * scale)})
